@@ -5,7 +5,7 @@ package semver
 var c11NuGet = []string{
 	"d.d.d", "[d.d.d]", "[d.d.d,d.d.d]", "(d.d.d,d.d.d)", "[d.d.d,d.d.d)", "(d.d.d,)", "(,d.d.d]", "[d.d.d,)",
 	"d.d.*", "d.*", "[d.d.d-l,d.d.d]", "d.d.d-l", "(,d.d.d)", "d.d", "[d.d,d.d.d.d]",
-	"[d.d.d-l.0d,d.d.d)", "[d.d.d-0d]",
+	"[d.d.d-l.0d,d.d.d)", "[d.d.d-0d]", "d.d.d.*", "[d.d.d.d,d.d.d.d]",
 }
 
 func c11Template(sys System, i int) string {
@@ -48,6 +48,10 @@ func VerifC11RoundTrip() {
 	}
 	vCover(true, "printed set parsed back")
 	text2 := c2.Set().String()
-	vAssert(text2 == text, "the parsed-back set prints identically")
+	float4 := sys == NuGet && len(sc) == 7 && sc[6] == '*' // d.d.d.*: a floating fourth component
+	if !(float4 && vParam("kf_c11_nuget_float4") == 1) {
+		// open finding: the lower bound of d.d.d.* is printed with its fourth component 0, which parsing drops
+		vAssert(text2 == text, "the parsed-back set prints identically")
+	}
 	vAssert(c2.MatchVersionPrerelease(v) == want, "the parsed-back set matches the same versions (prerelease-inclusive)")
 }
